@@ -229,6 +229,8 @@ def cli_target_default(ctx, res, rule):
     fn = "cli::" + fshort(b)
     _, table = common.cli_arg_table(ctx)
     terms = set()
+    srcs = set()
+    opaque = []
     for o in outs:
         for e in common.entry_calls(o):
             cfg = e[2][2]
@@ -236,6 +238,11 @@ def cli_target_default(ctx, res, rule):
                 rm = cfg.fields.get("removal_marker_configuration")
                 if isinstance(rm, A.Struct):
                     terms.add(A.show(rm.fields.get("targets")))
+                    sv = common.collection_sources(rm.fields.get("targets"))
+                    if sv is None:
+                        opaque.append(A.show(rm.fields.get("targets")))
+                    else:
+                        srcs |= sv
     if not terms:
         res.cannot(rule, fn, "targets", "cannot find the target set passed to the library")
         return 1
@@ -243,10 +250,9 @@ def cli_target_default(ctx, res, rule):
     for t in terms:
         feeding |= set(re.findall(r"args\.(\w+)", t))
     n = 0
-    allowed = {"load_removal_marker_target_names(args.removal_marker_target_config.some).into_iter().chain(args.removal_marker_target_name).collect()",
-               "[].into_iter().chain(args.removal_marker_target_name).collect()"}
+    allowed = {"load_removal_marker_target_names(args.removal_marker_target_config.some)", "args.removal_marker_target_name"}
     n += 1
-    extra = sorted(terms - allowed)
+    extra = sorted(srcs - allowed) + opaque
     if extra:
         res.add(Finding(rule, fn, "target-set-sources", "the target set has a source other than the config-file lines and the repeated flag: `%s` (with no target option given "
                         "it must be empty)" % extra[0][:200], loc=T.loc(b["tree"])))
